@@ -28,7 +28,7 @@ ASSUMPTIONS = [
     "vertices come from harness.interp fed by the recorded output, decimal_places=9",
     "tolerance 1e-7*scale + accumulated output rounding",
     "angle tests are skipped where the radius is below 1e-6*scale",
-    "requests are kept inside the documented domain: radius >= 1.05*chord/2, sweep in (0.05, 2pi-0.05), turns <= 5, min radius >= 3 resolutions (spirals: end radius >= 10*turns*resolution)",
+    "requests are kept inside the documented domain: radius >= 1.05*chord/2, sweep in (0.05, 2pi-0.05) plus a class of very short sweeps 1e-7..1e-3 rad (and their complements, almost full turns), turns <= 5, min radius >= 3 resolutions (spirals: end radius >= 10*turns*resolution)",
 ]
 TIERS = {
     "quick": {"shards": 16, "cases": 1600, "timeout": 300},
@@ -71,7 +71,9 @@ def run_case(ctx, col, case):
         g.set_distance_mode("relative")
     s.drain()
     kind = KINDS[case % len(KINDS)] if rng.random() < 0.7 else rng.choice(KINDS)
-    name, args, kw, meta = gen.shape_request(rng, o, relative, scale=scale, kinds=[kind])
+    name, args, kw, meta = gen.shape_request(rng, o, relative, scale=scale, kinds=[kind], tiny_sweeps=True)
+    if meta.get("tiny_sweep"):
+        col.count("tiny_or_almost_full_sweeps")
     kind = meta["kind"]
     # resolution inside the documented domain for the shape
     res = scale / rng.choice([8, 20, 60])
